@@ -21,7 +21,7 @@ NUMS = [0, 1, -1, 2.5, -0.5, 100, 1e15, 1e16, 1.5e-7, 123456789012345678, 1e21, 
         # fractions that start with zeros (".0" inside the number), small exponents, exponent texts
         1.05, 2.003, 10.01, 0.05, 100.001, 7.0625, 1e-7, 2e-5, 3.5e-10, 1e-05, 1.0e+22]
 # strings / keys that look like pieces of numbers (a number clean-up must never reach inside a string)
-NUMBERISH = ['1e-07', 'version 2e-05', '3e-04', '1.0', 'v1.0]', '10.0e+01', '2.00', '-0.0', '1e+05', '5.0,', 'a.0e-03b']
+NUMBERISH = ['NaN', 'Infinity', '-Infinity', 'is NaN?', 'null', 'true', '1e-07', 'version 2e-05', '3e-04', '1.0', 'v1.0]', '10.0e+01', '2.00', '-0.0', '1e+05', '5.0,', 'a.0e-03b']
 
 
 def json_case(v, indent):
